@@ -23,6 +23,13 @@ R12e request-state model (opstatic/condnode.py, shared with C04 R04e): over ever
      the yields of visit_WatchNode / visit_AlarmNode (requests accepted exactly when the class' own cancellable / forcible
      property holds): the body of a cancelled Watch is never invoked, and a generator that was resumed after an accepted
      force does not come back to the same yield in the same state (it proceeds without waiting).
+R12f what is accepted is what is offered: the run log stops offering an item as cancellable/forcible at its first conclusive
+     state (Completed / Failed / Cancelled; RuntimeInfo._get_record_runlog_items clears both flags there), but the node-level
+     `cancellable`/`forcible` do not look at completion (a UOD command node stays cancellable, a Wait stays forcible). So
+     CommandManager.cancel_instruction and force_instruction must themselves refuse a concluded invocation: every
+     mutation in them (_cancel_command, <cmd>.cancel()/force(), tracking.mark_cancelled/mark_forced) is dominated by a test
+     of a conclusive-state predicate on the instance id (a Tracking method that examines the states of that instance for
+     all three conclusive members) whose "concluded" outcome raises.
 """
 from __future__ import annotations
 
@@ -259,3 +266,50 @@ def run(ctx) -> None:
             ctx.ok("R12e", inst)
         else:
             ctx.fail("R12e", f, m.g.nodes[bad[0][1]].ast, inst, f"the body runs although the cancel request was accepted | history: {m.history(bad[0])}")
+
+    # ---- R12f
+    ctx.rule("R12f", "requests for concluded invocations are refused before anything is changed")
+    cmc = prog.cls(CM)
+    trc = prog.cls(TR)
+    enum_cls = "RuntimeRecordStateEnum"
+
+    def is_conclusive_predicate(fn) -> bool:
+        txt = {norm(n) for n in ast.walk(fn.node) if isinstance(n, ast.Attribute)}
+        return all(f"{enum_cls}.{m}" in txt for m in ("Completed", "Failed", "Cancelled")) and any(
+            isinstance(c, ast.Call) and call_attr(c) in ("get_states_by_instance",) for c in ast.walk(fn.node))
+    for mname in ("cancel_instruction", "force_instruction"):
+        f = cmc.methods.get(mname)
+        if f is None:
+            raise AnchorError(f"CommandManager.{mname} missing")
+        ctx.analysed(f)
+        g = cfg_of(f)
+        ipar = f.node.args.args[1].arg
+        muts = [n for n in g.nodes if n.ast is not None and any(
+            call_attr(c) in ("_cancel_command", "cancel", "force", "mark_cancelled", "mark_forced") for c in n.calls())]
+        if not muts:
+            raise AnchorError(f"{mname}: no cancel/force mutation found")
+        guards = []
+        for t in g.nodes:
+            if t.kind != "test":
+                continue
+            for c in ast.walk(t.ast):
+                if isinstance(c, ast.Call) and any(isinstance(a, ast.Name) and a.id == ipar for a in c.args):
+                    for tgt in res.resolve_call(c, f, cha=False):
+                        if is_conclusive_predicate(tgt):
+                            neg = isinstance(t.ast, ast.UnaryOp) and isinstance(t.ast.op, ast.Not)
+                            guards.append((t, "F" if neg else "T", tgt))
+        inst = f"{mname}: a concluded invocation is refused before any change"
+        ok_ = False
+        for t, lab, tgt in guards:
+            reaches = g.search([(t.id, lab)], lambda n: any(n.id == m.id for m in muts), follow_exc=False)
+            leaves_normally = g.path_to_exit_avoiding([(t.id, lab)], lambda n: False, follow_exc=False)
+            if reaches is None and leaves_normally is None and all(g.dominates(t, m) for m in muts):
+                ok_ = True
+                ctx.analysed(tgt)
+        if ok_:
+            ctx.ok("R12f", inst)
+        else:
+            ctx.fail("R12f", f, muts[0].ast, inst, "the request is applied without testing whether this invocation has already completed, "
+                     "failed or been cancelled: the run log does not offer such an item as cancellable/forcible, yet the request is "
+                     "accepted (a UOD command node stays cancellable and a Wait forcible after completion) and a further state is "
+                     "recorded after the conclusive one - get_runlog() then raises for the rest of the run")
